@@ -131,6 +131,9 @@ NamedVals(name) ==
                              <<20, <<0, 1>>, <<5, <<20, <<0, 2>>, <<5, <<20, <<0, 3>>, <<4>>>>>>>>>>>>>>
     [] name = "RecTree" -> <<<<20, <<0, 1>>, <<8>>>>,
                              <<20, <<0, 1>>, <<8, <<20, <<0, 2>>, <<8>>>>, <<20, <<0, 3>>, <<8, <<20, <<0, 4>>, <<8>>>>>>>>>>>>>>
+    [] name = "Throwable" -> <<<<20, <<3, 69>>, <<3, 109>>, <<8>>, <<4>>>>,
+                               <<20, <<3, 69>>, <<3>>, <<8, <<10, <<5, <<3, 67>>>>, <<4>>, <<5, <<3, 102>>>>, <<17, 0, 5210>>>>>>,
+                                 <<5, <<20, <<3, 73>>, <<3, 112>>, <<8>>, <<4>>>>>>>>>>
     [] name = "RecEnum" -> <<<<21, 1, <<0, 1>>>>,
                              <<21, 2, <<21, 1, <<0, 1>>>>, <<21, 2, <<21, 1, <<0, 2>>>>, <<21, 1, <<0, 3>>>>>>>>>>
 
